@@ -7,6 +7,8 @@ pub struct BlockDump {
     /// (coord, global id), sorted by coord
     pub replicas: Vec<(C3, u64)>,
     pub only_one: bool,
+    /// `Debug` form of the block's replication requirement
+    pub replication: String,
 }
 
 #[derive(Clone, Debug, PartialEq, Eq)]
